@@ -271,9 +271,47 @@ func (m *c11Mon) Observe(pre, post *cdpSnap, e *cdpEvent) {
 			}
 		}
 	}
+	// absolute form of "custody holds the standing bid": per denom the auction custody holds at least the standing
+	// best bids of all live English auctions plus all limit-bid deposits (attributed to the event that broke it)
+	need := func(s *cdpSnap) map[string]*big.Int {
+		out := map[string]*big.Int{}
+		for _, a := range s.AucV2 {
+			if a.AuctionType || a.ActiveBiddingId == 0 {
+				continue
+			}
+			if b, ok := s.BidsV2[a.ActiveBiddingId]; ok {
+				if out[b.DebtTokenAmount.Denom] == nil {
+					out[b.DebtTokenAmount.Denom] = new(big.Int)
+				}
+				out[b.DebtTokenAmount.Denom].Add(out[b.DebtTokenAmount.Denom], b.DebtTokenAmount.Amount.BigInt())
+			}
+		}
+		for _, lb := range s.LimitBids {
+			if out[lb.DebtToken.Denom] == nil {
+				out[lb.DebtToken.Denom] = new(big.Int)
+			}
+			out[lb.DebtToken.Denom].Add(out[lb.DebtToken.Denom], lb.DebtToken.Amount.BigInt())
+		}
+		return out
+	}
+	needPre, needPost := need(pre), need(post)
+	for d, n := range needPost {
+		m.rec.Eval(1)
+		np := needPre[d]
+		if np == nil {
+			np = new(big.Int)
+		}
+		cl := modLabel(auctionsV2types.ModuleName)
+		if post.bal(cl, d).Cmp(n) < 0 && pre.bal(cl, d).Cmp(np) >= 0 {
+			m.rec.Violate("C11/custody-below-standing-bids-plus-deposits/"+opTag(e), fmt.Sprintf("custody %s %s < standing English bids + limit-bid deposits %s", post.bal(cl, d), d, n), map[string]interface{}{"event": e.String()})
+		}
+	}
+	m.rec.Count("custody_absolute_form_checked", 1)
 	// a block without a transaction of his never debits a user's wallet: an automatic fill of a limit bid is paid
 	// from the deposit held in custody, an English bid was paid when it was placed
 	if e.Kind == "block" {
+		// an automatic fill takes from the deposits exactly what it takes off the filled auctions' remaining debt
+		depositLaw(m.u, m.rec, "C11", pre, post, e)
 		for _, ac := range m.u.c.Accts {
 			for _, d := range m.u.denomList() {
 				m.rec.Eval(1)
@@ -370,7 +408,9 @@ func (m *c11Mon) Observe(pre, post *cdpSnap, e *cdpEvent) {
 	m.rec.Distinct("C11-limit", kind, req.Cmp(own), req.BitLen()/8)
 }
 
-func pnSame(prev *auctionsV2types.Bid, addr string) bool { return prev != nil && prev.BidderAddress == addr }
+func pnSame(prev *auctionsV2types.Bid, addr string) bool {
+	return prev != nil && prev.BidderAddress == addr
+}
 
 func TestC11(t *testing.T) {
 	rec := ev.New("C11", "exploration", "surplus and debt auctions of generation 2 opened by the real begin blocker from collector net fees (lot sizes reached by the fee-generating vault workload), 8 bidders with equal / barely improving / non-improving / large bids, auction duration 1 h against block gaps up to 2 h; limit-bid deposit / partial withdraw / cancel / automatic fill with attacker-chosen amount (deposit+1, 1000x, whole custody) and denom (seized collateral held by the module). distinct = (auction type, has previous bid, same bidder) and (limit op, amount vs deposit, magnitude)")
@@ -394,4 +434,5 @@ func TestC11(t *testing.T) {
 	rec.Floor("op_limit_withdraw_rejected", 5)
 	rec.Floor("english_bids_accepted_surplus", 3)
 	rec.Floor("english_refunds_checked", 2)
+	rec.Floor("fill_deposit_law_checked", 10)
 }
